@@ -80,6 +80,50 @@ pub struct RtcAnswer {
     pub sdp: String,
 }
 
+/// Maximum nesting depth of JSON arrays and objects in messages
+///
+/// Valid messages nest at most four levels deep.
+const MAX_JSON_NESTING_DEPTH: usize = 32;
+
+/// Check if JSON arrays and objects are nested deeper than any valid message
+/// requires
+///
+/// Deserializing messages recurses once per nesting level, so messages of a
+/// few tens of kilobytes consisting of e.g. opening brackets overflow the
+/// stack (and thus abort the process) unless they are rejected beforehand.
+pub fn json_nesting_too_deep(json: &[u8]) -> bool {
+    let mut depth = 0usize;
+    let mut in_string = false;
+    let mut escaped = false;
+
+    for byte in json {
+        if in_string {
+            if escaped {
+                escaped = false;
+            } else if *byte == b'\\' {
+                escaped = true;
+            } else if *byte == b'"' {
+                in_string = false;
+            }
+        } else {
+            match byte {
+                b'"' => in_string = true,
+                b'[' | b'{' => {
+                    depth += 1;
+
+                    if depth > MAX_JSON_NESTING_DEPTH {
+                        return true;
+                    }
+                }
+                b']' | b'}' => depth = depth.saturating_sub(1),
+                _ => (),
+            }
+        }
+    }
+
+    false
+}
+
 fn serialize_20_bytes<S>(data: &[u8; 20], serializer: S) -> Result<S::Ok, S::Error>
 where
     S: Serializer,
